@@ -267,7 +267,14 @@ func walDirOf(dbPath string) string { return walstore.DefaultWALDir(dbPath) }
 
 func logName(num uint64) string { return fmt.Sprintf("%06d.log", num) }
 
+type scanned struct {
+	size    int64
+	ends    []int
+	garbage bool
+}
+
 type realSide struct {
+	cache map[string]scanned // log path -> last scan (logs only change by growing or being cut)
 	root  string
 	gen   int
 	db    string // current data directory ("" before the first open)
@@ -278,7 +285,7 @@ type realSide struct {
 }
 
 func newRealSide(root string) *realSide {
-	return &realSide{root: root, files: map[uint64]*fileRec{}, prev: map[uint64]bool{}}
+	return &realSide{root: root, files: map[uint64]*fileRec{}, prev: map[uint64]bool{}, cache: map[string]scanned{}}
 }
 
 func (r *realSide) newDir() string {
@@ -301,20 +308,33 @@ func (r *realSide) observe(dbPath string, learn bool) (diskDesc, error) {
 	for _, ll := range logs {
 		num := uint64(ll.Num)
 		now[num] = true
-		starts, garbage, stop, e := scanStarts(ll)
-		if e != nil {
-			return d, fmt.Errorf("scan %d: %w", num, e)
-		}
-		// starts: offset where each complete record begins; stop: where reading stopped
-		ends := []int{0}
-		for i := 1; i < len(starts); i++ {
-			ends = append(ends, starts[i])
-		}
-		if len(starts) > 0 {
-			ends = append(ends, stop)
+		path := filepath.Join(wd, logName(num))
+		var ends []int
+		var garbage bool
+		fi, serr := os.Stat(path)
+		unchanged := false
+		if c, ok := r.cache[path]; ok && serr == nil && c.size == fi.Size() && r.prev[num] && r.files[num] != nil {
+			ends, garbage, unchanged = c.ends, c.garbage, true
+		} else {
+			starts, g, stop, e := scanStarts(ll)
+			if e != nil {
+				return d, fmt.Errorf("scan %d: %w", num, e)
+			}
+			// starts: offset where each complete record begins; stop: where reading stopped
+			ends = []int{0}
+			for i := 1; i < len(starts); i++ {
+				ends = append(ends, starts[i])
+			}
+			if len(starts) > 0 {
+				ends = append(ends, stop)
+			}
+			garbage = g
+			if serr == nil {
+				r.cache[path] = scanned{size: fi.Size(), ends: ends, garbage: garbage}
+			}
 		}
 		d.Files = append(d.Files, fileDesc{Num: num, Batches: len(ends) - 1, Garbage: garbage})
-		if learn {
+		if learn && !unchanged {
 			content, e := os.ReadFile(filepath.Join(wd, logName(num)))
 			if e != nil {
 				return d, e
@@ -335,7 +355,52 @@ func (r *realSide) observe(dbPath string, learn bool) (diskDesc, error) {
 		}
 	}
 	if learn {
+		// Hard links outside the WAL directory keep the bytes of a log readable after the store
+		// unlinks it: a flush can append a batch to a log and remove that log in the same call.
+		ld := dbPath + "-links"
+		_ = os.MkdirAll(ld, 0o755)
+		for num := range now {
+			lp := filepath.Join(ld, logName(num))
+			if _, e := os.Lstat(lp); e != nil {
+				_ = os.Link(filepath.Join(wd, logName(num)), lp)
+			}
+		}
+		if linked, e := pebblewal.Scan(pebblewal.Dir{FS: vfs.Default, Dirname: ld}); e == nil {
+			for _, ll := range linked {
+				num := uint64(ll.Num)
+				if now[num] || !r.prev[num] {
+					continue
+				}
+				// removed from the WAL directory since the last observation: learn its final bytes
+				lp := filepath.Join(ld, logName(num))
+				starts, g, stop, e := scanStarts(ll)
+				content, e2 := os.ReadFile(lp)
+				fr := r.files[num]
+				if e != nil || e2 != nil || fr == nil || g {
+					continue
+				}
+				ends := []int{0}
+				for i := 1; i < len(starts); i++ {
+					ends = append(ends, starts[i])
+				}
+				if len(starts) > 0 {
+					ends = append(ends, stop)
+				}
+				if len(ends) >= len(fr.ends) {
+					fr.ends = ends
+					fr.bytes = append([]byte(nil), content[:stop]...)
+					if len(content) > stop {
+						fr.trailer = append([]byte(nil), content[stop:]...)
+					}
+				}
+			}
+		}
 		r.prev = now
+	}
+	for p := range r.cache {
+		if filepath.Dir(p) != wd {
+			delete(r.cache, p)
+		}
 	}
 	sort.Slice(d.Files, func(i, j int) bool { return d.Files[i].Num < d.Files[j].Num })
 	if b, e := os.ReadFile(filepath.Join(wd, "prune-watermark")); e == nil {
